@@ -459,6 +459,30 @@ impl<K, V, S> CacheStore<K, V, S> {
 }
 /// in the source `CacheStore<K, V, S>` is `std::collections::HashMap<Rc<K>, ValueEntry<K, V>, S>`
 pub type HashMap<K, V, S> = CacheStore<K, V, S>;
+/// `std::collections::hash_map::Iter<'i, Rc<K>, ValueEntry<K, V>>` (ASSUMED): it yields bindings of the map it was created
+/// from (`sp_map`, fixed while the shared borrow lives) and its remaining length shrinks with every item. That each binding is
+/// yielded exactly once is std's contract and NOT modelled (C16 is not applicable).
+#[verifier::external_body]
+#[verifier::reject_recursive_types(K)]
+#[verifier::reject_recursive_types(V)]
+pub struct HashMapIter<'i, K, V> { p: std::marker::PhantomData<&'i (K, V)> }
+impl<'i, K, V> HashMapIter<'i, K, V> {
+    pub uninterp spec fn sp_map(&self) -> Map<KeyId, ValueEntry<K, V>>;
+    pub uninterp spec fn sp_rem(&self) -> nat;
+    #[verifier::external_body]
+    pub fn next(&mut self) -> (r: Option<(&'i Rc<K>, &'i ValueEntry<K, V>)>)
+        ensures final(self).sp_map() == old(self).sp_map(),
+            match r {
+                Some(kv) => old(self).sp_map().contains_key(kid_rc(*kv.0)) && old(self).sp_map()[kid_rc(*kv.0)] == *kv.1 && final(self).sp_rem() < old(self).sp_rem(),
+                None => true,
+            }
+        no_unwind
+    { unimplemented!() }
+}
+impl<K, V, S> CacheStore<K, V, S> {
+    #[verifier::external_body]
+    pub fn iter(&self) -> (r: HashMapIter<'_, K, V>) ensures r.sp_map() == self@ { unimplemented!() }
+}
 
 pub uninterp spec fn hspec<S>(s: S, k: KeyId) -> u64;
 
@@ -2755,6 +2779,90 @@ where
         }
 
         (evicted_entry_count, evicted_policy_weight)
+    }
+//@@ END
+}
+
+// ---------------- src/unsync/iter.rs: iteration (C01, C05, C06 for `iter`) ----------------
+//@@ STRUCT file=src/unsync/iter.rs name=Iter
+#[verifier::reject_recursive_types(K)]
+#[verifier::reject_recursive_types(V)]
+#[verifier::reject_recursive_types(S)]
+pub struct Iter<'i, K, V, S> {
+    cache: &'i Cache<K, V, S>,
+    iter: HashMapIter<'i, K, V>,
+}
+//@@ END
+impl<'i, K, V, S> Iter<'i, K, V, S> {
+    /// the iterator walks the map of the cache it filters with (established by `Cache::iter`, the only constructor call), and
+    /// that cache's expiry durations are within the builder's 1000-year limit (= `Cache::cfg_ok`, written out because a type
+    /// invariant must not add trait bounds)
+    #[verifier::type_invariant]
+    pub closed spec fn inv(&self) -> bool {
+        &&& (self.cache.time_to_live.is_some() ==> dur_ns(self.cache.time_to_live.unwrap()) <= max_dur_ns())
+        &&& (self.cache.time_to_idle.is_some() ==> dur_ns(self.cache.time_to_idle.unwrap()) <= max_dur_ns())
+        &&& self.iter.sp_map() == self.cache.cache@
+    }
+    pub closed spec fn sp_cache(&self) -> Cache<K, V, S> { *self.cache }
+}
+impl<'i, K: Hash + Eq, V, S: BuildHasher + Clone> Iter<'i, K, V, S> {
+//@@ FN file=src/unsync/iter.rs owner=Iter name=new tags=C01,C05,C06
+    pub(crate) fn new(cache: &'i Cache<K, V, S>, iter: HashMapIter<'i, K, V>) -> /*@+*/(r:/*@-*/ Self/*@+*/)/*@-*/
+        requires cache.cfg_ok(), iter.sp_map() == cache.cache@, //@
+        ensures r.sp_cache() == *cache //@ [C01]
+    {
+        Self { cache, iter }
+    }
+//@@ END
+}
+impl<'i, K: Hash + Eq, V, S: BuildHasher + Clone> vstd::std_specs::iter::IteratorSpecImpl for Iter<'i, K, V, S> {
+    /// vstd's prophetic for-loop protocol is not used for this iterator (its laws are conditional on this flag)
+    open spec fn obeys_prophetic_iter_laws(&self) -> bool { false }
+    uninterp spec fn remaining(&self) -> Seq<Self::Item>;
+    uninterp spec fn will_return_none(&self) -> bool;
+    uninterp spec fn decrease(&self) -> Option<nat>;
+    uninterp spec fn peek(&self, i: int) -> Option<Self::Item>;
+}
+impl<'i, K, V, S> Iterator for Iter<'i, K, V, S>
+where
+    K: Hash + Eq,
+    S: BuildHasher + Clone,
+{
+    type Item = (&'i K, &'i V);
+
+//@@ FN file=src/unsync/iter.rs owner=Iterator for Iter name=next tags=C01,C05,C06 rewrites=forbyref2loop
+    fn next(&mut self) -> /*@+*/(r:/*@-*/ Option<Self::Item>/*@+*/)/*@-*/
+        ensures //@
+            final(self).sp_cache() == old(self).sp_cache(), //@
+            // C01 / C05 / C06 / C07: what iteration yields is a binding of the cache's map, with the value the map holds, and it
+            // is not expired at the clock reading taken for this very item
+            match r { //@ [C01,C05,C06,C07]
+                Some(kv) => ({ let c = old(self).sp_cache(); let k = kid::<K>(kv.0); //@
+                    c.cache@.contains_key(k) && *kv.1 == c.cache@[k].value && !c.sp_expired(&c.cache@[k], c.sp_now()) }), //@
+                None => true, //@
+            }, //@
+    {
+        proof { use_type_invariant(&*self); } //@
+        loop
+            invariant self.iter.sp_map() == old(self).iter.sp_map(), self.cache == old(self).cache, //@
+                self.cache.cfg_ok() && self.iter.sp_map() == self.cache.cache@, //@
+            decreases self.iter.sp_rem(), //@
+        { match self.iter.next() { Some((k, entry)) => {
+            if !self.cache.is_expired_entry(entry) {
+                return Some((k, &entry.value));
+            }
+        } None => break, } }
+        None
+    }
+//@@ END
+}
+impl<K: Hash + Eq, V, S: BuildHasher + Clone> Cache<K, V, S> {
+//@@ FN file=src/unsync/cache.rs owner=Cache name=iter tags=C01,C15
+    pub fn iter(&self) -> /*@+*/(r:/*@-*/ Iter<'_, K, V, S>/*@+*/)/*@-*/
+        requires self.cfg_ok(), //@
+        ensures r.sp_cache() == *self //@ [C01,C15]
+    {
+        Iter::new(self, self.cache.iter())
     }
 //@@ END
 }
